@@ -173,6 +173,12 @@ def isinstance_term(ex, x, c, st):
     if isinstance(x, (FuncVal, PyObj, ViewVal)):
         raise Unsupported("isinstance on function object")
     t = x.t
+    from .core import TExcObj
+
+    if isinstance(t, TExcObj):
+        if isinstance(c, FuncVal) and c.kind == "excclass":
+            return z3.BoolVal(exc_subclass(t.cls, c.name))
+        return z3.BoolVal(False)
     if isinstance(t, TOpt):
         return z3.And(z3.Not(x.v[0]), isinstance_term(ex, x.v[1], c, st))
     if isinstance(t, TUnion):
@@ -461,7 +467,7 @@ def builtin_call(ex, name, args, kwargs, st, node):
     if name in ("list", "tuple", "set", "sorted", "reversed", "frozenset"):
         yield from builtin_collect(ex, name, args, kwargs, st, node)
         return
-    if name in ("dict", "udict"):
+    if name in ("dict", "udict", "defaultdict"):
         yield from builtin_dict(ex, name, args, kwargs, st, node)
         return
     if name in ("str", "repr"):
@@ -602,6 +608,16 @@ def listing_of_set(st, sv_):
 
 
 def builtin_dict(ex, name, args, kwargs, st, node):
+    if name == "defaultdict":
+        a = args[0] if args else None
+        if not (isinstance(a, Val) and a.t == NUMTYPE) or len(args) != 1:
+            raise Unsupported("defaultdict with a factory other than int")
+        t = TDict(STR, NUM, flavour="ddict")
+        r = st.new_ref("ddict")
+        out = Val(t, r)
+        heapops.dict_set_contents(st.heap, out, z3.K(t.ksort(), z3.BoolVal(False)), [z3.K(t.ksort(), z3.RealVal(0))])
+        yield st, out
+        return
     if kwargs:
         raise Unsupported("dict(**kw)")
     if not args:
@@ -613,7 +629,7 @@ def builtin_dict(ex, name, args, kwargs, st, node):
                 x = heapops.read_field(st.heap, x, dd.mapping_delegate)
                 break
     if isinstance(x, Val) and isinstance(x.t, TDict):
-        t = TDict(x.t.k, x.t.v, udict=(name == "udict"))
+        t = TDict(x.t.k, x.t.v, flavour=("udict" if name == "udict" else "dict"))
         ex.note_type(t)
         r = st.new_ref("dict")
         out = Val(t, r)
@@ -705,13 +721,13 @@ def dict_method(ex, d, name, args, kwargs, st, node):
         heapops.dict_store(st.heap, d, k, v)
         yield st, v
     elif name == "clear":
-        heapops.dict_set_contents(st.heap, d, z3.K(t.k.sort(), z3.BoolVal(False)),
-                                  [z3.K(t.k.sort(), x) for x in t.v.default_terms()])
+        heapops.dict_set_contents(st.heap, d, z3.K(t.ksort(), z3.BoolVal(False)),
+                                  [z3.K(t.ksort(), x) for x in t.v.default_terms()])
         yield st, NONEV
     elif name == "update" and len(args) == 1 and isinstance(args[0].t, TDict) and args[0].t.k == t.k and args[0].t.v == t.v:
         o = args[0]
         odom = heapops.dict_dom(st.heap, o)
-        k = z3.Const(fresh_name("k"), t.k.sort())
+        k = z3.Const(fresh_name("k"), t.ksort())
         dom = z3.SetUnion(heapops.dict_dom(st.heap, d), odom)
         vals = [z3.Lambda([k], z3.If(z3.Select(odom, k), z3.Select(ov, k), z3.Select(dv, k)))
                 for dv, ov in zip(heapops.dict_vals(st.heap, d), heapops.dict_vals(st.heap, o))]
@@ -961,6 +977,8 @@ def fits_type(v, t):
         return True
     if isinstance(t, TOpt):
         return isinstance(v.t, TNone) or fits_type(v, t.inner) or (isinstance(v.t, TOpt) and compatible(v.t.inner, t.inner))
+    if isinstance(v.t, TOpt) and not isinstance(v.t.inner, TOpt):
+        return fits_type(v.v[1], t)  # passed under an `is not None` guard: obligation at the call
     if isinstance(t, TUnion):
         return any(fits_type(v, a) for a in t.alts)
     if isinstance(t, TTuple) and isinstance(v.t, TTuple) and len(t.items) == len(v.v):
@@ -981,6 +999,10 @@ def call_contract(ex, key, args, kwargs, st, node, ctor_self=None):
         t = types.get(name)
         if t is None:
             raise Unsupported(f"{c.key}: parameter {name} has no declared type")
+        if isinstance(v, Val) and isinstance(v.t, TOpt) and not isinstance(t, (TOpt, TUnion)):
+            ex.oblige(st, f"arg-not-None[{c.qual}.{name}]@{_short(node)}", z3.Not(v.v[0]))
+            st.assume(z3.Not(v.v[0]))
+            v = v.v[1]
         if isinstance(v, Val):
             if isinstance(t, TRef) and isinstance(v.t, TRef):
                 env[name] = Val(t if heapops._safe_sub(t.cls, v.t.cls) else v.t, v.v)
@@ -1015,6 +1037,12 @@ def call_contract(ex, key, args, kwargs, st, node, ctor_self=None):
                 bad.assume(spec.sv_bool(text, sc_x))
         if not bad.infeasible():
             ex.sink_raise(bad, ExcVal(ename, [], node), node)
+    for ename in c.allow_exc:
+        # "may raise": unconstrained exceptional exit (state after it is havoc'd per `modifies`)
+        bad = st.copy()
+        bad.trace.append(f"L{getattr(node, 'lineno', '?')}: {c.qual} may raise {ename}")
+        do_havoc(ex, c, c.modifies, env, bad, sc_pre)
+        ex.sink_raise(bad, ExcVal(ename, [], node), node)
     for cond in conds.values():
         st.assume(z3.Not(cond))
     if st.infeasible():
@@ -1036,7 +1064,26 @@ def call_contract(ex, key, args, kwargs, st, node, ctor_self=None):
     env2 = dict(env)
     env2["result"] = result
     sc_post = spec.Scope(env2, st.heap, pre_heap, env, st.alloc, pre_alloc, st.ghost)
+    pc_ids = None
     for label, text in c.ensures.items():
+        node = spec.parse(text)
+        if isinstance(node, ast.Call) and isinstance(node.func, ast.Name) and node.func.id == "implies" \
+                and isinstance(node.args[0], ast.Call) and isinstance(node.args[0].func, ast.Name) \
+                and node.args[0].func.id == "old":
+            # conditional frame clause `implies(old(P), P')`: used only when P is literally known in the
+            # pre-state (same term); otherwise it is not assumed at all (assuming less is sound) --
+            # this keeps irrelevant disjunctions out of the hypotheses.
+            ant = z3.simplify(spec.sv_bool(node.args[0], sc_post))
+            if pc_ids is None:
+                pc_ids = set()
+                for h in st.pc:
+                    pc_ids.add(h.get_id())
+                    if z3.is_and(h):
+                        pc_ids.update(ch.get_id() for ch in h.children())
+            parts = list(ant.children()) if z3.is_and(ant) else [ant]
+            if ant.get_id() in pc_ids or all(p.get_id() in pc_ids for p in parts):
+                st.assume(spec.sv_bool(node.args[1], sc_post))
+            continue
         st.assume(spec.sv_bool(text, sc_post))
     if not st.infeasible():
         yield st, result
